@@ -48,8 +48,13 @@ def mk_stabilizer(n, gens, fmt="matrix"):
         big = np.zeros((n + 1, n + 2), dtype=np.int8)
         big[1:, 1:n + 1] = S
         return Stabilizer((np.asfortranarray(R), big[1:, 1:n + 1], ph))
+    if fmt == "matrix-wide":         # the same 0/1 matrices with other element types: int64 X matrix, bool Z matrix, uint8 sign vector
+        R, S, ph = adapt.matrices_from_gens(n, gens)
+        return Stabilizer((R.astype(np.int64), S.astype(bool), ph.astype(np.uint8)))
     if fmt == "strings":
         return Stabilizer([P.to_label(n, g) for g in gens])
+    if fmt == "strings-nosign":      # '+' may be omitted
+        return Stabilizer([P.to_label(n, g)[1:] if not g[2] else P.to_label(n, g) for g in gens])
     raise ValueError(fmt)
 
 
@@ -300,7 +305,7 @@ def build_jobs(ctx, nmax=6, parts=("prep", "readout")):
                     gsets = all_generating_sets(n, key)[::7]          # every 7th of the 168 ordered bases
                 for gs in gsets:
                     for sv in sign_vectors(n):
-                        jobs.append((n, conn, with_signs(gs, sv), ("strings", "matrix", "matrix-f")[cnt % 3], orb))
+                        jobs.append((n, conn, with_signs(gs, sv), ("strings", "matrix", "matrix-f", "matrix-wide", "strings-nosign")[cnt % 5], orb))
                         cnt += 1
             desc[f"{n}-{conn}"] = (f"all {len(groups)} groups x all {2 ** n} sign vectors x "
                                    f"{'all ordered generating sets' if n == 2 else ('3 generating sets' if q else '24 of 168 ordered generating sets')}: {cnt} cases")
@@ -313,7 +318,7 @@ def build_jobs(ctx, nmax=6, parts=("prep", "readout")):
                     rows = generator_changes(n, rows, rnd, 1)[0]
                 use = svs if not q else [rnd.choice(svs)]
                 for sv in use:
-                    jobs.append((n, conn, with_signs(rows, sv), ("matrix", "matrix-f")[cnt % 2], orb))
+                    jobs.append((n, conn, with_signs(rows, sv), ("matrix", "matrix-f", "matrix-wide")[cnt % 3], orb))
                     cnt += 1
             # all signs for one member of every class (quick tier too)
             if q:
@@ -341,7 +346,7 @@ def build_jobs(ctx, nmax=6, parts=("prep", "readout")):
                 for rows in variants:
                     svs = sign_vectors(n) if nsig == 2 ** n else [tuple(rnd.randrange(2) for _ in range(n)) for _ in range(nsig)]
                     for sv in svs:
-                        jobs.append((n, conn, with_signs(rows, sv), ("strings", "matrix", "matrix-f", "matrix")[cnt % 4], orb))
+                        jobs.append((n, conn, with_signs(rows, sv), ("strings", "matrix", "matrix-f", "matrix", "matrix-wide", "strings-nosign")[cnt % 6], orb))
                         cnt += 1
             desc[f"{n}-{conn}"] = f"every class ({len(reps)}) x {layers + (0 if q and n == 6 else 1)} members (seeded local Clifford layers, seeded generator changes) x {'all ' + str(nsig) if nsig == 2 ** n else str(nsig) + ' seeded'} sign vectors: {cnt} cases (BOUNDED in members/signs)"
     return [j + (parts,) for j in jobs], desc
